@@ -1062,8 +1062,23 @@ func (g *bridgeGen) plan(mode string) (*BlockPlan, error) {
 					d = cand[perm[j-1]]
 					d.offeredAt = s.C.Height + 1
 				}
+				halfDone := false // another output of d's transaction has been credited already, d has not
+				if mode == "spv" && perm == nil && rare(2) {
+					for _, x := range g.deps {
+						if x.sib != nil && x.mined && int64(x.blk) <= st.Tip {
+							for _, pair := range [][2]*depInfo{{x, x.sib}, {x.sib, x}} {
+								if hasDeposited(st, pair[0]) && !hasDeposited(st, pair[1]) {
+									d, halfDone = pair[1], true
+								}
+							}
+						}
+					}
+				}
 				flaw := "none"
-				if d == g.cbDep && rare(3) { // a coinbase transaction presented under an aliased (non-zero) position
+				if halfDone && !rare(3) { // ... and its own inclusion proof counts as much as the first one's did
+					flaw = []string{"pos", "proof", "proofTrunc", "proofRagged", "header"}[r.Intn(5)]
+				} else if halfDone {
+				} else if d == g.cbDep && rare(3) { // a coinbase transaction presented under an aliased (non-zero) position
 					flaw = "posAlias"
 				} else if mode == "addr" && rare(3) {
 					flaw = []string{"otherEvm", "evmFold", "evmFold", "otherKey", "version", "otherOut"}[r.Intn(6)]
@@ -1522,4 +1537,13 @@ func indexOfStr(xs []string, x string) int {
 		}
 	}
 	return -1
+}
+
+func hasDeposited(st *project.BridgeState, d *depInfo) bool {
+	for _, x := range st.Deposited {
+		if len(x) == 2 && fmt.Sprint(x[0]) == project.H6(d.txid) && fmt.Sprint(x[1]) == fmt.Sprint(d.outIdx) {
+			return true
+		}
+	}
+	return false
 }
